@@ -23,7 +23,7 @@ PROPS = {
    'nontrivial': lambda r: r.get('allocs', 0) >= 20 and r.get('frees', 0) >= 5, 'distinct_by': 'api+sched',
  },
  'C02': {
-   'families': [('c02_pingpong', 5, ALL), ('c02_ownercollect', 3, ALL), ('c02_manypushers', 3, ALL), ('c02_hugeremote', 2, ALL), ('c02_forceabandon', 3, ALL)],
+   'families': [('c02_pingpong', 5, ALL), ('c02_ownercollect', 3, ALL), ('c02_manypushers', 3, ALL), ('c02_hugeremote', 2, ALL), ('c02_forceabandon', 3, ALL), ('c09_collect_race', 2, ALL)],
    'runs': {'quick': 3000, 'thorough': 150000},
    'rule': 'non-trivial = at least one context switch inside mi_free_block_delayed_mt (between its CASes), _mi_page_thread_free_collect or _mi_heap_delayed_free_partial; distinct = distinct (API result hash, hash of the (thread, site) sequence at context switches inside hot functions)',
    'nontrivial': lambda r: sw(r, 'switch_in_free_mt', 'switch_in_tf_collect', 'switch_in_delayed_partial') > 0,
@@ -37,7 +37,7 @@ PROPS = {
    'must_reach': ['switch_in_free_mt', 'switch_in_delayed_partial', 'delayed_freeing_observed'],
  },
  'C09': {
-   'families': [('c09_exit', 5, ALL), ('c09_adopt_race', 3, ALL), ('c09_userheap_adopter', 2, ALL), ('c12_bigarena', 0.3, ALLU)],
+   'families': [('c09_exit', 5, ALL), ('c09_adopt_race', 3, ALL), ('c09_collect_race', 2, ALL), ('c09_userheap_adopter', 2, ALL), ('c12_bigarena', 0.3, ALLU)],
    'runs': {'quick': 1500, 'thorough': 100000},
    'rule': 'non-trivial = at least one segment was abandoned and one reclaimed in the run; distinct = distinct (API hash, hot-switch signature)',
    'nontrivial': lambda r: sw(r, 'segment_abandoned') > 0 and sw(r, 'segment_reclaimed') > 0,
